@@ -105,9 +105,11 @@ def roundtrips(P, o, pose, expect, bad, out, case):
     else:
         Q, exc = call(Plane, *gf)
         if expect(Q, exc, "C17.general_form_roundtrip", pose):
-            val, exc = call(lambda: Q == P)
-            if exc is not None or val is not True:
-                bad("C17.general_form_roundtrip_eq", "Plane(*P.general_form()) != P", pose)
+            for nm, f in (("Q == P", lambda: Q == P), ("P == Q", lambda: P == Q)):
+                val, exc = call(f)
+                if exc is not None or val is not True:
+                    bad("C17.general_form_roundtrip_eq", "Plane(*P.general_form()) != P (%s)" % nm, pose)
+                    break
     pn, exc = call(P.point_normal)
     if exc is not None:
         bad("C17.point_normal", "point_normal() raised %s" % exc["cls"], pose, exc)
